@@ -485,13 +485,15 @@ def finish(res, level="proof"):
             rc = 1
             res.violations = 1
     cov = dict(res.coverage)
+    # time measurements depend on machine load and are not coverage: keep them apart
+    timing = {k: cov.pop(k) for k in list(cov) if re.search(r"(seconds|wall|_s$|time)", k) and k != "coqchk"}
     cov.setdefault("trusted_base", [])
     cov["theorem_axioms"] = res.theorem_axioms
     cov["known_findings_reproduced"] = res.known_lines
     cov["broken"] = res.broken
     ev = {"property_id": res.prop, "tier": res.tier, "seed": res.seed, "level": level, "coverage": cov,
           "assumptions": res.assumptions, "wall_s": round(time.time() - res.t0, 2), "violations": res.violations,
-          "notes": res.notes}
+          "notes": res.notes, "timing": timing}
     json.dump(ev, open(os.path.join(EVIDENCE, "%s.json" % res.prop), "w"), indent=1, default=str)
     if rc == 0:
         print("OK property=%s tier=%s obligations=%s evaluations=%s wall=%.1fs" % (
